@@ -109,6 +109,33 @@ def check(prop, tier, seed, relock=False, only=None, jobs=None):
     known_hits = []
     undecided = []
     outside = []
+    # 0. a refuted/undischarged C obligation: look for a concrete failing input with the bounded
+    #    harnesses named in the engine configuration (replay of the verifier's counterexample)
+    c_replay = None
+    cvc_cfg = [e for e in cfg["engines"] if e["kind"] == "cvc"]
+    cvc_bad = [c for c, lst in by_clause.items() if c.startswith("specpart.c:") and c in claimed
+               and any(x["status"] != "proved" for x in lst)]
+    if cvc_cfg and cvc_bad:
+        from engine import bounded_adapter
+
+        have = {b["name"] for b in bounded}
+        for which in cvc_cfg[0].get("replay_with", ["c04", "c18", "c20"]):
+            if f"specpart-{which}" in have:
+                continue
+            try:
+                b = bounded_adapter.run_c(prop, {"kind": "bounded_c", "which": which}, tier, seed)
+            except Exception:
+                continue
+            b["name"] += "(replay-search)"
+            bounded.append(b)
+        for b in bounded:
+            if b.get("violations"):
+                v = b["violations"][0]
+                c_replay = write_replay(prop, "c-counterexample-" + b["name"],
+                                        {"property": prop, "kind": "bounded-counterexample", "case": v,
+                                         "found_by": b["name"], "for_obligations": cvc_bad[:10],
+                                         "replay_cmd": b.get("replay_cmd")})
+                break
     # 1. concrete failures (replayed inputs) are violations whatever the proof status
     for c, lst in sorted(by_clause.items()):
         fails = [f for x in lst for f in x.get("concrete_failures", [])]
@@ -128,7 +155,10 @@ def check(prop, tier, seed, relock=False, only=None, jobs=None):
                                           "solver_output": x.get("detail") or x.get("model") or x.get("goal"),
                                           "scenario": x.get("scenario"),
                                           "note": "this obligation is in obligations.lock.json (discharged on the pinned tree) and is no longer discharged"})
-            violations.append((c, path, True, x["status"]))
+            if c_replay is not None and c.startswith("specpart.c:"):
+                violations.append((c, c_replay, False, x["status"] + " (concrete input found by the bounded harness)"))
+            else:
+                violations.append((c, path, True, x["status"]))
         elif unproved:
             undecided.append(c)
     # 2. claimed clauses that were not generated at all (vacuity guard)
